@@ -7,6 +7,12 @@ use crate::plan::ReplayFile;
 
 #[derive(serde::Deserialize)]
 struct Entry {
+    /// stable identifier of a known finding that the harness handles at its call site
+    #[serde(default)]
+    id: String,
+    /// replay file (relative to /verif) that demonstrates a known finding on the unchanged tree
+    #[serde(default)]
+    replay: String,
     status: String,
     property: String,
     /// all of these must hold on the shrunk replay
@@ -34,6 +40,10 @@ pub fn matches(rf: &ReplayFile) -> Option<String> {
         if e.status != "known" || e.property != rf.property || e.class != rf.violation.class {
             continue;
         }
+        // findings handled at their call site (slack + demonstration replay) never suppress a violation here
+        if !e.id.is_empty() || !e.replay.is_empty() {
+            continue;
+        }
         if !e.op_kind.is_empty() && e.op_kind != rf.violation.op_kind {
             continue;
         }
@@ -46,4 +56,25 @@ pub fn matches(rf: &ReplayFile) -> Option<String> {
         }
     }
     None
+}
+
+
+fn load() -> Vec<Entry> {
+    let p = crate::runner::verif_dir().join("known_findings.json");
+    std::fs::read_to_string(p).ok().and_then(|t| serde_json::from_str::<FileFmt>(&t).ok()).map(|f| f.findings).unwrap_or_default()
+}
+
+/// is the known finding with this id listed (status "known")?
+pub fn active(id: &str) -> bool {
+    use std::sync::OnceLock;
+    static IDS: OnceLock<Vec<String>> = OnceLock::new();
+    if std::env::var_os("B3SIM_NO_KNOWN_SLACK").is_some() {
+        return false;
+    }
+    IDS.get_or_init(|| load().into_iter().filter(|e| e.status == "known" && !e.id.is_empty()).map(|e| e.id).collect()).iter().any(|x| x == id)
+}
+
+/// (what, replay path) of the listed known findings of a property that carry a demonstration replay
+pub fn demonstrations(prop: &str) -> Vec<(String, String)> {
+    load().into_iter().filter(|e| e.status == "known" && e.property == prop && !e.replay.is_empty()).map(|e| (e.what, e.replay)).collect()
 }
